@@ -1035,6 +1035,70 @@ class World:
             setattr(pr.obj, which, z)
         return self._mutate(idx, op, impl, lambda m: None, "set_" + which)
 
+    def op_set_closed(self, idx, op, entry):
+        """the deprecated `closed` setter: changes a flag only; every query must go on answering as a fresh
+        path of the same segments (carrying the same flag) does"""
+        if not self._have(p=[op["p"]]):
+            return "skipped"
+        pr = self.paths[op["p"]]
+        val = bool(op["value"])
+        tw = self._twin_with_flag(pr)
+        toc = outcome(lambda: setattr(tw, "closed", val))
+        oc = outcome(lambda: setattr(pr.obj, "closed", val))
+        if oc[0] != toc[0] or (oc[0] == "e" and oc[1] != toc[1]):
+            self.violate(idx, "endpoint-family", "closed", {"impl": self._render(oc), "fresh": self._render(toc)})
+        if getattr(pr.obj, "_closed", False):
+            pr.closed_flag = True
+        self.check_seq(idx, pr, list(pr.model), oc[0] == "e")
+        self.note_state(pr, "set_closed")
+        self.hash_sweep(idx)
+        return "ok" if oc[0] == "v" else "raised"
+
+    def op_path_transform(self, idx, op, entry):
+        """rotated / translated / scaled: a NEW path made by the library from an existing one"""
+        if not self._have(p=[op["p"]]) or op["id"] in self.paths:
+            return "skipped"
+        pr = self.paths[op["p"]]
+        kind = op["kind"]
+        if kind == "translated":
+            call = lambda p: p.translated(cz(op["z"]))          # noqa: E731
+        elif kind == "rotated":
+            call = lambda p: p.rotated(float(op["deg"]), origin=cz(op["z"]))   # noqa: E731
+        else:
+            call = lambda p: p.scaled(float(op["sx"]), float(op["sy"]))        # noqa: E731
+        if kind != "translated" and any(self.segs[x].kind == "A" for x in pr.model) and not self.quad:
+            return "skipped"
+        oc = outcome(lambda: call(pr.obj))
+        tw = outcome(lambda: call(self.twin_path(pr)))
+        self.compare(idx, "transformed", oc, tw, self.path_taint(pr), rtol=1e-9, atol=self._scale_atol(pr))
+        if oc[0] != "v" or not isinstance(oc[1], Path):
+            return "raised"
+        new = self.adopt_path(op["id"], oc[1], "transformed", op["sbase"])
+        self.probe("path_made_by_" + kind)
+        self.note_state(new, "path_transform")
+        self.hash_sweep(idx)
+        return "ok"
+
+    def op_seg_split(self, idx, op, entry):
+        """seg.split(t) / seg.cropped(t0, t1): new free segments made by the library"""
+        if not self._have(s=[op["s"]]):
+            return "skipped"
+        src = self.segs[op["s"]]
+        if src.kind == "A" and not self.quad:
+            return "skipped"
+        t = float(op["t"])
+        oc = outcome(lambda: src.obj.split(t))
+        tw = outcome(lambda: self.twin_seg(src).split(t))
+        self.compare(idx, "split", oc, tw, False)
+        if oc[0] != "v":
+            return "raised"
+        for k, o in enumerate(list(oc[1])[:2]):
+            sid = op["id"] + k
+            if sid not in self.segs and seg_kind(o) != "?":
+                self.adopt_seg(sid, o, "split")
+        self.hash_sweep(idx)
+        return "ok"
+
     def op_set_start(self, idx, op, entry):
         return self._set_endpoint(idx, op, "start")
 
@@ -1615,7 +1679,7 @@ def replay(hist, keep_log=False):
 # ----------------------------------------------------------------------------------------------
 
 PATH_MUT = ["setitem", "setslice", "insert", "append", "extend", "extend_self", "iadd", "delitem",
-            "delslice", "pop", "remove", "reverse", "clear", "set_start", "set_end", "approx_arcs"]
+            "delslice", "pop", "remove", "reverse", "clear", "set_start", "set_end", "approx_arcs", "set_closed"]
 PATH_Q = ["length", "length_T", "length_tol", "length_fail", "point", "T2t", "t2T", "ilength",
           "cropped", "start", "end", "bbox", "d", "iscontinuous", "isclosed", "len", "repr", "eq",
           "eq_twin", "derivative", "unit_tangent", "curvature", "normal", "closed", "isclosedac",
@@ -1623,7 +1687,7 @@ PATH_Q = ["length", "length_T", "length_tol", "length_fail", "point", "T2t", "t2
 SEG_Q = ["length", "length_tol", "length_fail", "length_t", "point", "bbox", "ilength", "repr", "eq",
          "derivative", "unit_tangent", "poly", "points", "length_rev"]
 CREATE = ["new_seg", "dup_seg", "new_path", "seg_reversed", "seg_copy", "path_reversed", "path_slice",
-          "path_subpaths", "path_reparse", "path_deepcopy", "path_pickle"]
+          "path_subpaths", "path_reparse", "path_deepcopy", "path_pickle", "path_transform", "seg_split"]
 
 
 class Gen:
@@ -1919,6 +1983,8 @@ class Gen:
             return {"op": m, "p": pid, "s": a.choice(pool)}
         if m in ("reverse", "clear"):
             return {"op": m, "p": pid}
+        if m == "set_closed":
+            return {"op": m, "p": pid, "value": a.random() < 0.7}
         if m == "approx_arcs":
             sb = self.next_sid
             self.next_sid += 64
@@ -2036,6 +2102,10 @@ class Gen:
             sid = self.next_sid
             self.next_sid += 1
             return {"op": k, "s": a.choice(sids), "id": sid}
+        if k == "seg_split":
+            sid = self.next_sid
+            self.next_sid += 2
+            return {"op": k, "s": a.choice(sids), "id": sid, "t": a.choice([0.5, 0.25, a.random()])}
         pid = self.next_pid
         self.next_pid += 1
         src = a.choice(pids)
@@ -2043,6 +2113,16 @@ class Gen:
             sb = self.next_sid
             self.next_sid += 32
             return {"op": k, "p": src, "id": pid, "sbase": sb}
+        if k == "path_transform":
+            sb = self.next_sid
+            self.next_sid += 32
+            kind = a.choice(["translated", "translated", "rotated", "scaled"])
+            op = {"op": k, "p": src, "id": pid, "sbase": sb, "kind": kind, "z": zc(self.pt(a))}
+            if kind == "rotated":
+                op["deg"] = a.choice([90.0, 180.0, 30.0, -45.0])
+            if kind == "scaled":
+                op["sx"], op["sy"] = a.choice([2.0, 0.5, -1.0]), a.choice([2.0, 0.5, 3.0])
+            return op
         if k == "path_slice":
             return {"op": k, "p": src, "id": pid, "sl": self.slc(a, len(w.paths[src].model))}
         if k == "path_subpaths":
